@@ -28,6 +28,9 @@ import re
 from .prologVisitor import prologVisitor
 from .errors import CompilerError
 
+# names a Prolog variable could have (VARIABLE token) that mean something else in generated code
+_RESERVED_PYTHON_NAMES = ('True', 'False', 'None', 'ATOM_NIL', '__debug__')
+
 class PredicateList:
     def __init__(self,head,tail):
         self.head = head
@@ -234,6 +237,10 @@ class YPPrologVisitor(prologVisitor):
 
     def visitClause(self,ctx):
         lhs = self.visitSimplepredicate(ctx.simplepredicate())
+        if not isinstance(lhs, Predicate) or not re.fullmatch(r'[A-Za-z_][A-Za-z0-9_]*', lhs.name()):
+            # the predicate name becomes part of the name of a Python function
+            raise CompilerError(self.context.current_source_file, ctx.simplepredicate(),
+                    f"'{ctx.simplepredicate().getText()}' cannot be defined as a predicate")
         if ctx.predicateexpression():
             rhs = self.visitPredicateexpression(ctx.predicateexpression())
         else:
@@ -263,8 +270,10 @@ class YPPrologVisitor(prologVisitor):
         t = self.visitTerm(ctx.term())
         if isinstance(t, Atom):
             t = Functor(t,[])
-        if not isinstance(t, Functor):
+        if not isinstance(t, Functor) or not isinstance(t.name, Atom):
             raise CompilerError(self.context.current_source_file, ctx.term(), f"'{ctx.term().getText()}' is not a functor")
+        if t.name.value == '$CUTIF':
+            raise CompilerError(self.context.current_source_file, ctx.term(), "'$CUTIF' is reserved for the compiler")
         return Predicate(t)
 
     def visitPredicateexpression(self,ctx):
@@ -356,6 +365,9 @@ class YPPrologVisitor(prologVisitor):
             variable = AnonymousVariableTerm(self.anonymousVariableCounter)
             self.anonymousVariableCounter += 1
         else:
+            if any(varname.startswith(r) and varname[len(r):].strip('_') == '' for r in _RESERVED_PYTHON_NAMES):
+                # keep the variable from capturing a name the generated code relies on
+                varname += '_'
             variable = VariableTerm(varname)
         return variable
 
